@@ -65,6 +65,11 @@ def _lit(v):
 INIT = "__init__"   # module name standing for the package's own __init__.py
 
 
+def rn(d):
+    """the name a definition has in its module's source (two definitions in different modules may share it: 'twins')"""
+    return d.get("rname") or d["name"]
+
+
 def modname(prog, mod):
     """dotted name under which module `mod` of the generated package is importable"""
     return prog["pkg"] if mod == INIT else "%s.%s" % (prog["pkg"], mod)
@@ -73,9 +78,9 @@ def modname(prog, mod):
 def _ref(prog, cur_mod, name):
     d = find(prog, name)
     if d["mod"] == cur_mod:
-        return name
+        return rn(d)
     # definitions in the package's __init__.py are reached through the package object itself
-    return "%s.%s" % (prog["pkg"] if d["mod"] == INIT else d["mod"], name)
+    return "%s.%s" % (prog["pkg"] if d["mod"] == INIT else d["mod"], rn(d))
 
 
 def _rexpr(prog, fn, e, inners):
@@ -136,13 +141,13 @@ def render_def(prog, d):
         if d["vtype"] == "dictset":
             # a dict whose insertion order follows the iteration order of a set of strings (hash-seed dependent);
             # its *value* (dict equality) is the same in every process
-            return "%s = {k_: len(k_) for k_ in {%s}}\n" % (d["name"], ", ".join(_lit(v) for v in d["value"]))
+            return "%s = {k_: len(k_) for k_ in {%s}}\n" % (rn(d), ", ".join(_lit(v) for v in d["value"]))
         if d["vtype"] == "tuplist":
             # a tuple (hashable object) holding a list that can be mutated in place
-            return "%s = (%s, %s)\n" % (d["name"], _lit(d["value"]["a"]), _lit(d["value"]["l"]))
-        return "%s = %s\n" % (d["name"], _lit(d["value"]))
+            return "%s = (%s, %s)\n" % (rn(d), _lit(d["value"]["a"]), _lit(d["value"]["l"]))
+        return "%s = %s\n" % (rn(d), _lit(d["value"]))
     if d["k"] == "alias":
-        return "%s = %s\n" % (d["name"], d["target"])
+        return "%s = %s\n" % (rn(d), _ref(prog, d["mod"], d["target"]))
     if d["k"] == "wrapper":
         return "%s = _verif_wrap(%s)\n" % (d["name"], d["target"])
     if d["k"] == "mut":
@@ -150,10 +155,10 @@ def render_def(prog, d):
         # (plug-in style registration); at most one per variable, so the final value does not depend on its position
         tv = find(prog, d["target"])
         if tv["vtype"] == "list":
-            return "%s.append(%r)\n" % (d["target"], d["delta"])
+            return "%s.append(%r)\n" % (rn(tv), d["delta"])
         if tv["vtype"] == "tuplist":
-            return "%s[1].append(%r)\n" % (d["target"], d["delta"])
-        return "%s[%r] = %r\n" % (d["target"], "m", d["delta"])
+            return "%s[1].append(%r)\n" % (rn(tv), d["delta"])
+        return "%s[%r] = %r\n" % (rn(tv), "m", d["delta"])
     if d["k"] == "query":
         # a module-level statement that asks a memento function for its version while the module is still being
         # executed (as `g = f.force_local()` or a call at import time would); None under the identity decorator
@@ -176,7 +181,7 @@ def render_def(prog, d):
         params += ", fn=%s" % _ref(prog, d["mod"], d["fdef"])
     if d.get("kwdef") is not None:
         params += ", *, kw=%s" % _lit(d["kwdef"])
-    lines.append("def %s(%s):\n" % (d["name"], params))
+    lines.append("def %s(%s):\n" % (rn(d), params))
     lines.append("    verif_rt.rec(%r)\n" % ("%s.%s" % (d["mod"], d["name"])))
     inners = []
     base = _rexpr(prog, d, d["base"], inners)
@@ -414,13 +419,13 @@ def apply_edit(prog, edit, tag):
     elif kind == "varmut":
         if d["vtype"] == "list":
             d["value"] = d["value"] + [delta]
-            stmt = "%s.append(%r)\n" % (d["name"], delta)
+            stmt = "%s.append(%r)\n" % (rn(d), delta)
         elif d["vtype"] == "tuplist":
             d["value"] = {"a": d["value"]["a"], "l": d["value"]["l"] + [delta]}
-            stmt = "%s[1].append(%r)\n" % (d["name"], delta)
+            stmt = "%s[1].append(%r)\n" % (rn(d), delta)
         else:
             d["value"] = dict(d["value"], k=d["value"]["k"] + delta)
-            stmt = "%s[\"k\"] = %r\n" % (d["name"], d["value"]["k"])
+            stmt = "%s[\"k\"] = %r\n" % (rn(d), d["value"]["k"])
     elif kind == "retarget":
         cands = [c["name"] for c in callables(p) if c["name"] != e["f"] and c["mod"] in p["modules"]]
         if not cands:
@@ -458,7 +463,7 @@ def apply_edit(prog, edit, tag):
 # ------------------------------------------------------------------------------------------
 
 def program_strategy(max_fns=6, two_modules=True, allow_hidden=True, allow_explicit=True, allow_cluster=True,
-                     str_sets=True, allow_hidden_plain=False, allow_alias=True, explicit_f0=False, value_heavy=False, allow_fdef=False, allow_dictset=False, allow_init=False, allow_query=False, allow_tuplist=False, allow_declared=False, helper_heavy=False, allow_mut=False):
+                     str_sets=True, allow_hidden_plain=False, allow_alias=True, explicit_f0=False, value_heavy=False, allow_fdef=False, allow_dictset=False, allow_init=False, allow_query=False, allow_tuplist=False, allow_declared=False, helper_heavy=False, allow_mut=False, allow_twins=False):
     from hypothesis import strategies as st
 
     small = st.integers(0, 9)
@@ -590,6 +595,28 @@ def program_strategy(max_fns=6, two_modules=True, allow_hidden=True, allow_expli
             d["body"] = body
             defs.append(d)
         defs += extra
+        if allow_twins and len([m_ for m_ in modules if m_ != INIT]) == 2 and draw(st.integers(0, 3)) > 0:
+            # "twins": a variable in the other module that has the SAME name in its module's source but another value,
+            # read (as other.NAME) by the root next to its own NAME; and a plain helper with identical text next to it
+            ivars = [x for x in defs if x["k"] == "var" and x["vtype"] == "int" and x["mod"] != INIT]
+            if not ivars:
+                ivars = [{"k": "var", "mod": "a", "name": "G9", "vtype": "int", "value": draw(small)}]
+                defs.append(ivars[0])
+            if ivars:
+                v0 = draw(st.sampled_from(ivars))
+                om = [m_ for m_ in modules if m_ not in (INIT, v0["mod"])][0]
+                tw = {"k": "var", "mod": om, "name": v0["name"] + "tw", "rname": v0["name"], "vtype": "int", "value": v0["value"] + draw(st.integers(1, 3))}
+                defs.append(tw)
+                root = next(x for x in defs if x["k"] == "fn" and x["name"] == "f0")
+                root["body"] = {"e": "add", "a": root["body"], "b": {"e": "add", "a": {"e": "glob", "n": v0["name"]}, "b": {"e": "glob", "n": tw["name"]}}}
+                # plain helper pair: h in v0's module reads NAME, its twin in the other module reads that module's NAME
+                hb = {"e": "add", "a": {"e": "x"}, "b": {"e": "glob", "n": v0["name"]}}
+                helper = {"k": "fn", "mod": v0["mod"], "name": "h9", "memento": False, "version": None, "cluster": None, "pdef": None, "kwdef": None,
+                          "fdef": None, "base": {"e": "glob", "n": v0["name"]}, "body": hb}
+                twin = dict(helper, mod=om, name="h9tw", rname="h9", base={"e": "glob", "n": tw["name"]},
+                            body={"e": "add", "a": {"e": "x"}, "b": {"e": "glob", "n": tw["name"]}})
+                defs += [helper, twin]
+                root["body"] = {"e": "add", "a": root["body"], "b": {"e": "call", "f": "h9"}}
         if allow_mut:
             for vi, vd in enumerate([x for x in defs if x["k"] == "var" and x["vtype"] in ("list", "dict", "tuplist")]):
                 if draw(st.booleans()):
@@ -656,6 +683,8 @@ def features(prog):
         f.add("version-query-at-import")
     if any(d["k"] == "mut" for d in prog["defs"]):
         f.add("in-place-update-at-import")
+    if any(d.get("rname") for d in prog["defs"]):
+        f.add("same-name-in-two-modules")
     return sorted(f)
 
 
